@@ -63,6 +63,8 @@ def ugrid_dataset(m, rng, force=None):
         "face_coords": bool(rng.random() < 0.3),
         "conn_via": _pick(rng, ["topology_attr", "cf_role"]),
         "coord_dtype": _pick(rng, ["float64", "float64", "float32"]),
+        "more_tables": bool(rng.random() < 0.4),
+        "edge_face_edge_last": bool(rng.random() < 0.5),
     }
     if rng.random() < 0.15:
         # storage already in the library's standard form (platform int, most negative fill)
@@ -136,6 +138,40 @@ def ugrid_dataset(m, rng, force=None):
             topo["edge_dimension"] = N["nEdge"]
         supplied["edge_node"] = [sorted(e) for e in edges]
         d["edge_start_index"] = esi
+        d["more_tables"] = bool(d.get("more_tables")) and ref.is_manifold(m.faces)
+        if d["more_tables"]:
+            # the source also ships its edge->face and node->face tables, in its own integer type / fill value / index base (FESOM-
+            # style files do; the edge->face table there is stored with the edge dimension LAST, which needs edge_dimension declared)
+            idt = d["dtype"] if d["dtype"] != "float64" else "int32"
+            ifill = np.dtype(idt).type(fillv if (d["fill"] not in ("nan",) and d["dtype"] != "float64") else -1)
+            tsi = _pick(rng, [0, 1])
+            efm = ref.edge_faces(m.faces)
+            ef = np.full((len(edges), 2), ifill, dtype=idt)
+            for i, e in enumerate(edges):
+                fl = efm[frozenset(e)]
+                ef[i, : len(fl)] = np.array(fl) + tsi
+            efn = "edge_face_connectivity" if not rn else _name(rng, "edge_faces")
+            eattrs = {"cf_role": "edge_face_connectivity", "start_index": tsi, "_FillValue": ifill}
+            if d.get("edge_face_edge_last"):
+                ds[efn] = xr.DataArray(ef.T.copy(), dims=[N["Two"], N["nEdge"]], attrs=eattrs)
+                topo["edge_dimension"] = N["nEdge"]
+            else:
+                ds[efn] = xr.DataArray(ef, dims=[N["nEdge"], N["Two"]], attrs=eattrs)
+            topo["edge_face_connectivity"] = efn
+            supplied["edge_face"] = [sorted(efm[frozenset(e)]) for e in edges]
+            nfm = ref.node_faces(m.faces, m.n_node)
+            wv = max(1, max(len(v) for v in nfm.values()))
+            nf = np.full((m.n_node, wv), ifill, dtype=idt)
+            for i in range(m.n_node):
+                fl = sorted(nfm[i])
+                nf[i, : len(fl)] = np.array(fl, dtype=idt) + tsi
+            nfn = "node_face_connectivity" if not rn else _name(rng, "node_faces")
+            ds[nfn] = xr.DataArray(nf, dims=[N["nNode"], _name(rng, "nMaxNodeFaces") if rn else "nMaxNodeFaces"], attrs={"cf_role": "node_face_connectivity", "start_index": tsi, "_FillValue": ifill})
+            topo["node_face_connectivity"] = nfn
+            supplied["node_face"] = [sorted(nfm[i]) for i in range(m.n_node)]
+            d["tables_start_index"] = tsi
+    else:
+        d["more_tables"] = False
     if d["face_coords"]:
         C = face_centres(m)
         cl, ca = ref.xyz_to_lonlat(C)
